@@ -378,6 +378,12 @@ def active_vertices_not_adjacent_and_not_segmenting(
             raise TypeError("'is_active' should be a BoolArray2D if graph is not " "specified")
         active_vertices_not_adjacent(solver, is_active)
         height, width = is_active.shape
+        if height == 1 or width == 1:
+            # A single row / column has no diagonal neighbours, and one cell can touch the outer
+            # border on two opposite sides: the diagonal-chain encoding below needs height,
+            # width >= 2.
+            active_vertices_connected(solver, ~is_active)
+            return
         ranks = solver.int_array((height, width), 0, (height * width - 1) // 2)
         for y in range(height):
             for x in range(width):
